@@ -25,7 +25,8 @@ def main():
     res = {"id": sid, "property": prop, "repo_head": head, "demo_cmd": run_demo + "   (demo copied to %s/zz_seed_demo_test.go)" % pkgdir}
     rc0, out0 = sh(run_demo, wt)
     res["demo_on_unchanged_tree"] = "pass" if rc0 == 0 else "FAIL"
-    rc, out = sh("git apply --check %s && git apply %s" % (os.path.join(src, "patch.diff"),) * 2, wt)
+    pf = os.path.join(src, "patch.diff")
+    rc, out = sh("git apply --check %s && git apply %s" % (pf, pf), wt)
     res["patch_applies"] = (rc == 0)
     if rc != 0:
         res["apply_log"] = out[-1500:]
